@@ -69,6 +69,10 @@ def run(ctx):
         wc_err = ""
     except ValueError as e:
         wc_close, wc_err = True, str(e)
+    try:
+        init_guarded = H.detect_init_guarded(src)
+    except ValueError as e:
+        init_guarded, wc_err = False, (wc_err + " " + str(e)).strip()
     ctx.oblige("shape audit: the modelled methods of wasyncore/channel/server/trigger/task have the statements the model transliterates",
                not diff and not wc_err, "; ".join(diff) + (" | " + wc_err if wc_err else ""))
     if diff or wc_err:
@@ -104,7 +108,7 @@ def run(ctx):
         if conform:
             try:
                 toks, exps = H.tokens(w)
-                ans = runner.query([H.run_line(w, toks, len(w.socks), wc_close)])[0]
+                ans = runner.query([H.run_line(w, toks, len(w.socks), wc_close, init_guarded)])[0]
                 d = H.compare(w, toks, exps, ans)
                 stats["tokens"] += len(toks)
             except H.TieError as e:
@@ -232,7 +236,7 @@ def run(ctx):
         stats["listener_runs"] += 1
         js = [[(x.hex() if isinstance(x, (bytes, bytearray)) else x) for x in st] for st in steps]
         replay = {"world": "listener", "steps": js, "failing_input_found": True}
-        ans = runner.query([H.run_line_listener(w, toks, wc_close)])[0] if toks else ""
+        ans = runner.query([H.run_line_listener(w, toks, wc_close, init_guarded)])[0] if toks else ""
         d = H.compare_listener(toks, exps, ans) if toks else None
         stats["tokens"] += len(toks)
         if d is not None:
@@ -243,7 +247,7 @@ def run(ctx):
         problems, setup_fault = H.listener_monitor(w, exps)
         nontrivial.add(("listener", tag, hashlib.sha1(repr(toks).encode()).hexdigest()[:12]))
         if problems:
-            if setup_fault:
+            if setup_fault and not init_guarded:
                 stats["in_f17_class"] += 1
                 if len(f17_seen) < 3:
                     f17_seen.append(replay)
@@ -310,8 +314,8 @@ def run(ctx):
 
     # ---- the model's own explorer --------------------------------------------------------
     maxs = 400000 if thorough else 60000
-    ex_lines = runner.query(["explore 0 1 100 1000 0%d %d 1" % (1 if wc_close else 0, maxs),
-                             "explore 1 1 2 3 1%d %d 1" % (1 if wc_close else 0, maxs // 2)], timeout=1200)
+    ex_lines = runner.query(["explore 0 1 100 1000 0%d%d %d 1" % (1 if wc_close else 0, 1 if init_guarded else 0, maxs),
+                             "explore 1 1 2 3 1%d%d %d 1" % (1 if wc_close else 0, 1 if init_guarded else 0, maxs // 2)], timeout=1200)
     ex = []
     for l in ex_lines:
         d = {}
@@ -334,8 +338,9 @@ def run(ctx):
     if wc_close:
         ctx.oblige("F18 is reproduced on the real code (worker-side teardown; loop death through select EBADF)",
                    stats["in_f18_class"] > 0 and died[0], "runs in class: %d, loop death shown: %s" % (stats["in_f18_class"], died[0]))
-    ctx.oblige("F17 is reproduced on the real code (listener closed by an OSError in HTTPChannel.__init__)",
-               stats["in_f17_class"] > 0 or not _f17_open(), "runs in class: %d" % stats["in_f17_class"])
+    if not init_guarded:
+        ctx.oblige("F17 is reproduced on the real code (listener closed by an OSError in HTTPChannel.__init__)",
+                   stats["in_f17_class"] > 0 or not _f17_open(), "runs in class: %d" % stats["in_f17_class"])
 
     if not props_ok and not ctx.violations:
         ctx.report("c13-proof-broken", "Props/C13.v no longer checks (%s)" % failing,
@@ -368,6 +373,7 @@ def run(ctx):
         "runs_in_f17_class": stats["in_f17_class"],
         "f18_loop_death_observed_on_real_code": loop_died_real,
         "wc_close_read_from_source": wc_close,
+        "init_guarded_read_from_source": init_guarded,
         "shape_digest": H.shape_digest(sig),
     })
 
@@ -408,7 +414,8 @@ def replay(data):
         if data.get("check") == "conformance":
             runner = vcommon.Runner(os.path.join(vcommon.VERIF, "ocaml", "chanfault", "runner"))
             toks, exps = H.tokens(w)
-            d = H.compare(w, toks, exps, runner.query([H.run_line(w, toks, len(w.socks), H.detect_wc_close(vcommon.SRC))])[0])
+            d = H.compare(w, toks, exps, runner.query([H.run_line(w, toks, len(w.socks), H.detect_wc_close(vcommon.SRC),
+                                                               H.detect_init_guarded(vcommon.SRC))])[0])
             print("conformance now:", d)
             return 1 if d else 0
         return 1 if problems else 0
